@@ -141,7 +141,9 @@ func (g *Gen) trans(x *Expr, env *Env) TV {
 		var binders []string
 		for _, q := range x.Vars {
 			s, t := specTypeOfName(g.P, q.Type)
-			name := "q." + q.Name
+			// unique binder names: macro expansion nests quantifiers that use the same variable name
+			g.nbound++
+			name := fmt.Sprintf("q.%s!%d", q.Name, g.nbound)
 			e2 = e2.with(q.Name, TV{name, s, t})
 			binders = append(binders, "("+name+" "+string(s)+")")
 		}
